@@ -204,6 +204,65 @@ fn main() {
     let mut completed_depth = 0usize;
     let mut capped = false;
 
+    // ---- light phases: long single-instance histories about token flow, and
+    // two long-lived instances over one backend (no read battery)
+    let light_cfg = run.tier.pick((3usize, 3usize, 4usize), (4, 4, 5)); // depth: two-instance, token3, token2
+    let mut phases: Vec<(&'static str, Wrap, Vec<Op>, usize, bool)> = Vec::new();
+    for wrap in [Wrap::Meta, Wrap::Enc(16)] {
+        phases.push(("two-instances", wrap, alpha_two_instances(wrap.cs()), light_cfg.0, true));
+        phases.push(("token-flow-3-keys", wrap, alpha_token(wrap.cs(), &[0, 1, 2]), light_cfg.1, false));
+        phases.push(("token-flow-2-keys", wrap, alpha_token(wrap.cs(), &[0, 2]), light_cfg.2, false));
+    }
+    let mut items: Vec<(usize, usize)> = Vec::new(); // (phase, first op)
+    for (pi, p) in phases.iter().enumerate() {
+        for j in 0..p.2.len() {
+            items.push((pi, j));
+        }
+    }
+    // the light phases run first and may use at most 40% of the budget
+    let deadline = std::time::Instant::now() + std::time::Duration::from_secs_f64((run.budget_s * 0.4).min(run.remaining_s()).max(2.0));
+    let numbered: Vec<(usize, (usize, usize))> = items.iter().cloned().enumerate().collect();
+    let light_results: Vec<LightItem> = util::par_map(numbered, threads, |(idx, (pi, j))| {
+        let (_, wrap, alpha, depth, two) = &phases[pi];
+        let mut it = LightItem::default();
+        let mut hist = vec![alpha[j].clone()];
+        let mut who = vec![0u8]; // the first op goes through instance A (A and B are symmetric)
+        let base = 1_000_000_000_000u64 + ((idx as u64) << 23) * 16_000;
+        light_rec(*wrap, alpha, *depth, *two, &mut hist, &mut who, base, deadline, &mut it);
+        it
+    });
+    let mut light_table: BTreeMap<String, (u64, u64)> = BTreeMap::new();
+    let mut light_capped = false;
+    for ((pi, _), it) in items.iter().zip(light_results) {
+        let (name, wrap, _, depth, _) = &phases[*pi];
+        let e = light_table.entry(format!("{name} / {} / depth {depth}", wrap.label())).or_insert((0, 0));
+        e.0 += it.histories;
+        e.1 += it.distinct.len() as u64;
+        run.add("transitions", it.histories);
+        run.add("traces_validated_against_impl", it.histories);
+        run.add("light_histories", it.histories);
+        run.add("evaluations", it.ops + it.reads);
+        run.add("mutations_compared", it.ops);
+        for d in &it.distinct {
+            run.distinct(*d ^ (*pi as u64).wrapping_mul(0x9E3779B97F4A7C15));
+        }
+        for (k, v) in &it.tolerated {
+            *tolerated.entry(k.to_string()).or_insert(0) += v;
+        }
+        tokens.extend_from_slice(&it.tokens);
+        if it.capped && !light_capped {
+            light_capped = true;
+            run.cap_hit(&format!("time budget: light phase {name} / {} not finished", wrap.label()));
+        }
+        for v in it.violations {
+            run.violation(v);
+        }
+    }
+    run.set(
+        "light_phases",
+        json!(light_table.iter().map(|(k, (n, d))| json!({"phase": k, "histories": n, "distinct_outcomes": d})).collect::<Vec<_>>()),
+    );
+
     for depth in 1..=overall_max {
         let parents: Vec<Rep> = reps.drain(..).filter(|r| depth <= cfgs[r.cfg].max_depth).collect();
         if parents.is_empty() {
@@ -312,63 +371,6 @@ fn main() {
         completed_depth = depth;
         reps = next;
     }
-
-    // ---- light phases: long single-instance histories about token flow, and
-    // two long-lived instances over one backend (no read battery)
-    let light_cfg = run.tier.pick((3usize, 3usize, 4usize), (4, 4, 5)); // depth: two-instance, token3, token2
-    let mut phases: Vec<(&'static str, Wrap, Vec<Op>, usize, bool)> = Vec::new();
-    for wrap in [Wrap::Meta, Wrap::Enc(16)] {
-        phases.push(("two-instances", wrap, alpha_two_instances(wrap.cs()), light_cfg.0, true));
-        phases.push(("token-flow-3-keys", wrap, alpha_token(wrap.cs(), &[0, 1, 2]), light_cfg.1, false));
-        phases.push(("token-flow-2-keys", wrap, alpha_token(wrap.cs(), &[0, 2]), light_cfg.2, false));
-    }
-    let mut items: Vec<(usize, usize)> = Vec::new(); // (phase, first op)
-    for (pi, p) in phases.iter().enumerate() {
-        for j in 0..p.2.len() {
-            items.push((pi, j));
-        }
-    }
-    let deadline = std::time::Instant::now() + std::time::Duration::from_secs_f64(run.remaining_s().max(2.0));
-    let numbered: Vec<(usize, (usize, usize))> = items.iter().cloned().enumerate().collect();
-    let light_results: Vec<LightItem> = util::par_map(numbered, threads, |(idx, (pi, j))| {
-        let (_, wrap, alpha, depth, two) = &phases[pi];
-        let mut it = LightItem::default();
-        let mut hist = vec![alpha[j].clone()];
-        let mut who = vec![0u8]; // the first op goes through instance A (A and B are symmetric)
-        let base = 1_000_000_000_000u64 + ((idx as u64) << 23) * 16_000;
-        light_rec(*wrap, alpha, *depth, *two, &mut hist, &mut who, base, deadline, &mut it);
-        it
-    });
-    let mut light_table: BTreeMap<String, (u64, u64)> = BTreeMap::new();
-    for ((pi, _), it) in items.iter().zip(light_results) {
-        let (name, wrap, _, depth, _) = &phases[*pi];
-        let e = light_table.entry(format!("{name} / {} / depth {depth}", wrap.label())).or_insert((0, 0));
-        e.0 += it.histories;
-        e.1 += it.distinct.len() as u64;
-        run.add("transitions", it.histories);
-        run.add("traces_validated_against_impl", it.histories);
-        run.add("light_histories", it.histories);
-        run.add("evaluations", it.ops + it.reads);
-        run.add("mutations_compared", it.ops);
-        for d in &it.distinct {
-            run.distinct(*d ^ (*pi as u64).wrapping_mul(0x9E3779B97F4A7C15));
-        }
-        for (k, v) in &it.tolerated {
-            *tolerated.entry(k.to_string()).or_insert(0) += v;
-        }
-        tokens.extend_from_slice(&it.tokens);
-        if it.capped && !capped {
-            capped = true;
-            run.cap_hit(&format!("time budget: light phase {name} / {} not finished", wrap.label()));
-        }
-        for v in it.violations {
-            run.violation(v);
-        }
-    }
-    run.set(
-        "light_phases",
-        json!(light_table.iter().map(|(k, (n, d))| json!({"phase": k, "histories": n, "distinct_outcomes": d})).collect::<Vec<_>>()),
-    );
 
     // across all executions (disjoint logical-time windows) no token repeats
     let n_tokens = tokens.len();
